@@ -184,6 +184,9 @@ func c12Par(ic bool, pat string, lines [][]byte, rep, k int) string {
 }
 
 func c12RunExt(f []string) (string, bool) {
+	if res, ok := c12RunHist(f); ok {
+		return res, true
+	}
 	switch f[0] {
 	case "par":
 		rep, _ := strconv.Atoi(f[4])
@@ -426,6 +429,7 @@ func c12GenExt(r *Rand, tier string) []string {
 		}
 		out = append(out, "must "+HexS(pat))
 	}
+	out = append(out, c12GenHistAll(r, tier)...)
 	if tier == "thorough" {
 		// exhaustive: every hay over {a,b,A} up to length 6 x every needle over {a,b} up to length 3
 		var hays, needles [][]byte
@@ -467,6 +471,9 @@ func c12GenExt(r *Rand, tier string) []string {
 }
 
 func c12StatsExt(f []string, st map[string]int) bool {
+	if c12StatsHist(f, st) {
+		return true
+	}
 	switch f[0] {
 	case "index":
 		st["op.index"]++
@@ -541,7 +548,7 @@ func c12CorpusExt() []string {
 	ix := func(hay, needle string) string { return fmt.Sprintf("index %s %s", HexS(hay), HexS(needle)) }
 	fd := func(ic int, pat, line string) string { return fmt.Sprintf("field %d %s %s", ic, HexS(pat), HexS(line)) }
 	long := strings.Repeat("aaaaaab", 40)
-	return []string{
+	return append(c12CorpusHist(), []string{
 		ix("", ""), ix("abc", ""), ix("", "a"), ix("abc", "abcd"), ix("abc", "abc"), ix("abc", "abd"),
 		ix("aaaaaaab", "aab"), ix("abababac", "abac"), ix("ABABABAC", "abac"), ix("aAbB", "AB"), ix("É=1", "é"), ix("K", "k"),
 		ix(long+"aaaaaaa", "aaaaaaa"), ix(long, strings.Repeat("aaaaaab", 10)+"b"), ix(long+"x", long[3:]+"x"),
@@ -551,5 +558,5 @@ func c12CorpusExt() []string {
 		"must " + HexS("%{a} %{b}"), "must " + HexS("%{a}%{b}"), "must " + HexS("%{a"), "must " + HexS("%{a} %{a}"), "must -",
 		fd(0, "k=%{x} %{?s};%{y}", "ak=1 2;3"), fd(1, "K=%{x} %{?s};%{y}", "ak=1 2;3"), fd(0, "%{src} %{line} %{.}", "1 2 3"),
 		fd(0, "%{a} %{?a} %{}", "1 2 3"), fd(0, "%{a}=", "x"), fd(1, "é%{v}É", "aé1É"), fd(0, "%{}", ""),
-	}
+	}...)
 }
